@@ -496,7 +496,7 @@ def names_and_totality(ctx):
             info["styleMapFamilyName"] = rng.choice(FAMILIES)
         if rng.random() < 0.5:
             info["versionMajor"] = rng.randint(0, 20)
-            info["versionMinor"] = rng.choice([0, 1, 5, 50, 999])
+            info["versionMinor"] = rng.choice([0, 1, 5, 50, 999, 1234, 5000])      # (any non-negative integer is valid)
         if rng.random() < 0.2:
             info["postscriptFontName"] = rng.choice(["MyFont-Regular", "Custom_PS", "Foo-BoldItalic"])
         if i % 4 == 1:
@@ -556,6 +556,9 @@ def names_and_totality(ctx):
             psname = nt.getDebugName(6)
             if "postscriptFontName" not in info and any(ord(c) < 33 or ord(c) > 126 or c in "[](){}<>/%" for c in psname or ""):
                 ctx.spec_failure(case, "generated PostScript name %r has illegal characters" % psname)
+            if "versionMajor" in info and int(tt["head"].fontRevision + 1e-6) != info["versionMajor"]:
+                ctx.spec_failure(case, "versionMajor %d, versionMinor %d: head.fontRevision is %.4f -- the explicitly set major version is its integer part" % (
+                    info["versionMajor"], info["versionMinor"], tt["head"].fontRevision))
             o = tt["OS/2"]
             for attr, field in (("openTypeOS2WeightClass", "usWeightClass"), ("openTypeOS2WidthClass", "usWidthClass")):
                 if attr in extra and getattr(o, field) != extra[attr]:
